@@ -92,6 +92,64 @@ def distinct_add_fn(P):
     return None
 
 
+def _second_pass_form(R, f, pushes):
+    """DISTINCT applied to the finished table: `if distinct { let mut seen = DistinctValues::new(); rows.retain(|r| seen.add(&r.columns)) }`.
+    Vec::retain visits every element once, front to back, and keeps the order of what it keeps: the first occurrence of each tuple stays."""
+    P = R.prog
+    rets = [c for c in f.calls if short(c.name) == "alloc::vec::Vec::retain" and (c.func.get("res_targs") or c.targs)[:1] == ["sqlgrep::data_model::Row"]]
+    if len(rets) != 1:
+        return False
+    rt = rets[0]
+    cl = [P.fns.get(k) for k in (rt.func.get("closure_args") or [])]
+    if len(cl) != 1 or cl[0] is None:
+        return False
+    g = PR.view(P, cl[0])
+    adds = PR.calls_matching(g, ADD)
+    if len(adds) != 1:
+        return False
+    add = adds[0]
+    ret_os = F.origins(g, 0, depth=6, through_calls=False)
+    problems = []
+    if not (len(ret_os) == 1 and ret_os[0].kind == "call" and ret_os[0].call is add):
+        problems.append(("agg|retain-predicate", "the retain predicate is not the answer of DistinctValues::add itself"))
+    if "columns" not in F.source_fields(g, add.args[1], depth=8) or not any(o.kind == "arg" and o.arg == 2 for o in F.origins(g, add.args[1], depth=8)):
+        problems.append(("agg|other-tuple", "DistinctValues::add is not applied to the columns of the row being kept or dropped"))
+    fa = PR.facts(f, relevant=_is_distinct_flag, tag="distinct2")
+    if not fa.ok or not fa.every_path(rt.bb, lambda a, val: _is_distinct_flag(a) and val is True):
+        problems.append(("agg|retain-unguarded", "the second pass is not under `distinct == true`"))
+    # the table filtered is the table the rows were pushed into
+    def root(op):
+        pl, n = op.get("pl"), 0
+        while pl is not None and n < 8:
+            n += 1
+            defs = [st for _, st in F._assign_defs(f).get(pl["l"], []) if not st["pl"]["p"]]
+            if len(defs) == 1 and defs[0]["rv"]["k"] == "use" and defs[0]["rv"]["op"].get("pl") is not None:
+                pl = defs[0]["rv"]["op"]["pl"]
+            elif len(defs) == 1 and defs[0]["rv"]["k"] in ("ref", "copy_for_deref", "rawptr"):
+                pl = defs[0]["rv"]["pl"]
+            else:
+                break
+        return pl["l"] if pl is not None else None
+    if root(rt.args[0]) is None or any(root(p_.args[0]) != root(rt.args[0]) for p_ in pushes):
+        problems.append(("agg|other-table", "the second pass filters another vector than the result rows"))
+    # the memory is created in this call
+    cap = [st for _, st in f.stmts() if st["k"] == "assign" and st["rv"]["k"] == "aggr" and st["rv"].get("ak") == "closure" and
+           any(o.kind == "aggr" and o.place is not None and o.place.get("l") == st["pl"]["l"] for o in F.origins(f, rt.args[1], depth=4, through_calls=False))]
+    srcs = [o for st in cap for op in st["rv"]["ops"] for o in F.origins(f, op, depth=6, through_calls=False)]
+    if not cap or any(o.kind == "arg" for o in srcs) or not any(o.kind == "call" for o in srcs):
+        problems.append(("agg|persistent-memory", "the DISTINCT set of the second pass is not created inside execute_result"))
+    if any(PR.loop_of(f, rt.bb) is not None for _ in (0,)):
+        problems.append(("agg|retain-in-loop", "the second pass runs inside a loop"))
+    if problems:
+        for k, msg in problems:
+            R.violation("C08.agg", k, "execute_result: %s" % msg, [rt.loc()])
+    else:
+        R.ok("C08.agg", "agg", "DISTINCT as a second pass: rows.retain(|r| seen.add(&r.columns)) under distinct, on the pushed rows", rt.loc())
+        R.ok("C08.agg", "agg|order", "only rows that passed HAVING are in the table the second pass records", rt.loc())
+        R.ok("C08.agg", "agg|local-memory", "the DISTINCT set is created inside execute_result", rt.loc())
+    return True
+
+
 def run(R):
     # DISTINCT keeps a hash set of value tuples: "same tuple" is Value's Eq, found through Value's Hash - the two must agree
     from . import rules_c16
@@ -137,6 +195,8 @@ def run(R):
               if (c.func.get("res_targs") or c.targs)[:1] == ["sqlgrep::data_model::Row"]]
     if not pushes:
         R.violation("C08.agg", "agg|no-push", "execute_result: no push of a result Row found", [f.loc()])
+    elif not PR.calls_matching(f, ADD) and _second_pass_form(R, f, pushes):
+        pass
     else:
         add = _emission_guarded(R, "C08.agg", f, pushes, "agg")
         if add is not None:
